@@ -1,12 +1,14 @@
 #pragma once
-/* harness shim: logging is a no-op (arguments are not evaluated, like a
- * disabled log level in libosmocore) */
+/* harness shim: log statements are formatted into a scratch buffer and thrown away, as an enabled
+ * log level would do in libosmocore: their arguments are evaluated and every %s argument is read up
+ * to its terminator - under the sanitizers' eyes */
+void shim_log(const char *fmt, ...) __attribute__((format(printf, 1, 2)));
 #define LOGL_DEBUG 1
 #define LOGL_INFO 3
 #define LOGL_NOTICE 5
 #define LOGL_ERROR 7
 #define LOGL_FATAL 8
 #define DLGLOBAL (-1)
-#define LOGP(ss, level, fmt, args...) do { } while (0)
-#define LOGPC(ss, level, fmt, args...) do { } while (0)
-#define DEBUGP(ss, fmt, args...) do { } while (0)
+#define LOGP(ss, level, fmt, args...) shim_log(fmt, ## args)
+#define LOGPC(ss, level, fmt, args...) shim_log(fmt, ## args)
+#define DEBUGP(ss, fmt, args...) shim_log(fmt, ## args)
